@@ -36,7 +36,7 @@ from . import ltl as L
 # =============================================================================
 # rendering to Scenic source
 # =============================================================================
-HEADER = "from simverif.userlib import tab, ev, evv, fault, val, Tok, ftab, prop, fspec\n"
+HEADER = "from simverif.userlib import tab, tabv, ev, evv, fault, val, Tok, ftab, prop, fspec\n"
 
 _FTAB = False  # set per render(): conditions carry a fault point (C14)
 _MODE2D = False  # set per render(): program is compiled in 2D compatibility mode
